@@ -185,7 +185,7 @@ def main(tier):
             for cls, text in V:
                 run.violation(cls, '%s  (sections loaded in order: %s)' % (text, ' | '.join(sec_str(s) for s in seq)),
                               {'engine': 'conf', 'sections': [section_text(s).decode() for s in seq], 'clause': cls}, dedup=cls + '|' + text.split(' (')[0][:50] + '|' + str(len(seq)))
-    if nlines < 1000 and not run.violations:
+    if nlines < 1000 and not run.violations and not run.capped:
         raise common.HarnessError('vacuous: only %d log lines were read back' % nlines)
     cov = {'states': len(seqs), 'transitions': sum(len(s) for s in seqs) + 18 * len(seqs), 'traces_validated_against_impl': len(seqs),
            'samples': [[section_text(s).decode() for s in seqs[i]] for i in (1, nsingle // 2, nsingle + 7, len(seqs) - 1)],
